@@ -31,7 +31,7 @@ PROPS["C10"] = dict(
 
 PROPS["C07"] = dict(
     level="exploration",
-    budget_s=dict(quick=90, thorough=600),
+    budget_s=dict(quick=300, thorough=600),
     parts=[dict(name="grid", bin="C07", flavour="plain"), dict(name="histories", bin="C07s", flavour="plain")],
     manifest=dict(
         engine="E2", design_ref="5 / C07",
@@ -59,7 +59,7 @@ PROPS["C07"] = dict(
 
 PROPS["C18"] = dict(
     level="exploration",
-    budget_s=dict(quick=120, thorough=1800),
+    budget_s=dict(quick=300, thorough=1800),
     parts=[dict(name="units", bin="C18", flavour="plain", budget_share=0.7), dict(name="retrieval", bin="C18b", flavour="plain")],
     manifest=dict(
         engine="E2", design_ref="5 / C18",
@@ -87,7 +87,7 @@ _E1_ASSUME = ["HDF5 1.10.8 is trusted", "the observer sees the file only through
 
 PROPS["C02"] = dict(
     level="model_checking",
-    budget_s=dict(quick=150, thorough=1200),
+    budget_s=dict(quick=300, thorough=1200),
     parts=[dict(name="histories", bin="C02", flavour="plain", resume_mode="skip", max_crashes=3)],
     extra_bins=["obsdump"],
     manifest=dict(
@@ -113,7 +113,7 @@ PROPS["C02"] = dict(
 
 PROPS["C03"] = dict(
     level="model_checking",
-    budget_s=dict(quick=120, thorough=1200),
+    budget_s=dict(quick=300, thorough=1200),
     parts=[dict(name="containers", bin="C03", flavour="plain")],
     manifest=dict(
         engine="E1", design_ref="5 / C03",
@@ -137,7 +137,7 @@ PROPS["C03"] = dict(
 
 PROPS["C08"] = dict(
     level="model_checking",
-    budget_s=dict(quick=150, thorough=1200),
+    budget_s=dict(quick=300, thorough=1200),
     parts=[dict(name="catalogue", bin="C08", flavour="plain")],
     manifest=dict(
         engine="E1", design_ref="5 / C08",
@@ -161,7 +161,7 @@ PROPS["C08"] = dict(
 
 PROPS["C09"] = dict(
     level="model_checking",
-    budget_s=dict(quick=150, thorough=1200),
+    budget_s=dict(quick=300, thorough=1200),
     parts=[dict(name="modes", bin="C09", flavour="plain")],
     manifest=dict(
         engine="E1", design_ref="5 / C09",
@@ -188,7 +188,7 @@ PROPS["C09"] = dict(
 
 PROPS["C04"] = dict(
     level="model_checking",
-    budget_s=dict(quick=150, thorough=2700),
+    budget_s=dict(quick=300, thorough=2700),
     parts=[dict(name="graphs", bin="C04", flavour="plain")],
     manifest=dict(
         engine="E1", design_ref="5 / C04",
@@ -212,7 +212,7 @@ PROPS["C04"] = dict(
 
 PROPS["C14"] = dict(
     level="model_checking",
-    budget_s=dict(quick=120, thorough=1500),
+    budget_s=dict(quick=300, thorough=1500),
     parts=[dict(name="properties", bin="C14", flavour="plain")],
     manifest=dict(
         engine="E1", design_ref="5 / C14",
@@ -237,7 +237,7 @@ PROPS["C14"] = dict(
 
 PROPS["C20"] = dict(
     level="exploration",
-    budget_s=dict(quick=150, thorough=1500),
+    budget_s=dict(quick=300, thorough=1500),
     parts=[dict(name="trees", bin="C20", flavour="plain")],
     manifest=dict(
         engine="E2", design_ref="5 / C20",
@@ -262,7 +262,7 @@ PROPS["C20"] = dict(
 
 PROPS["C19"] = dict(
     level="exploration",
-    budget_s=dict(quick=150, thorough=2400),
+    budget_s=dict(quick=300, thorough=2400),
     parts=[dict(name="validator", bin="C19", flavour="plain")],
     manifest=dict(
         engine="E2", design_ref="5 / C19",
@@ -284,7 +284,7 @@ PROPS["C19"] = dict(
 
 PROPS["C11"] = dict(
     level="fault_enumeration",
-    budget_s=dict(quick=150, thorough=1500),
+    budget_s=dict(quick=300, thorough=1500),
     parts=[dict(name="crash_and_handles", bin="C11", flavour="plain")],
     extra_bins=["obsdump"],
     manifest=dict(
@@ -309,7 +309,7 @@ PROPS["C11"] = dict(
 
 PROPS["C15"] = dict(
     level="model_checking",
-    budget_s=dict(quick=150, thorough=1800),
+    budget_s=dict(quick=300, thorough=1800),
     parts=[dict(name="frames", bin="C15", flavour="plain")],
     manifest=dict(
         engine="E1", design_ref="5 / C15",
@@ -333,7 +333,7 @@ PROPS["C15"] = dict(
 
 PROPS["C12"] = dict(
     level="model_checking",
-    budget_s=dict(quick=150, thorough=1500),
+    budget_s=dict(quick=300, thorough=1500),
     parts=[dict(name="ids", bin="C12", flavour="plain", resume_mode="skip", max_crashes=3)],
     extra_bins=["idhelper"],
     manifest=dict(
@@ -358,7 +358,7 @@ PROPS["C12"] = dict(
 
 PROPS["C17"] = dict(
     level="exploration",
-    budget_s=dict(quick=150, thorough=1500),
+    budget_s=dict(quick=300, thorough=1500),
     parts=[dict(name="slices_and_views", bin="C17", flavour="plain")],
     manifest=dict(
         engine="E2", design_ref="5 / C17",
@@ -381,7 +381,7 @@ PROPS["C17"] = dict(
 
 PROPS["C16"] = dict(
     level="model_checking",
-    budget_s=dict(quick=240, thorough=1800),
+    budget_s=dict(quick=300, thorough=1800),
     parts=[dict(name="misuse", bin="C16", flavour="asan", max_crashes=60, budget_share=0.55)] +
           # thorough tier: the other properties' harnesses (quick bounds) under ASan/UBSan + shim; only crashes / sanitizer reports count here
           [dict(name="asan_" + b, bin=b, flavour="asan", tiers=("thorough",), crash_only=True, args=dict(thorough=["--tier=quick"]), budget_share=0.08, max_crashes=10)
@@ -407,7 +407,7 @@ PROPS["C16"] = dict(
 
 PROPS["C13"] = dict(
     level="model_checking",
-    budget_s=dict(quick=180, thorough=1800),
+    budget_s=dict(quick=300, thorough=1800),
     parts=[dict(name="descriptors", bin="C13", flavour="plain")],
     manifest=dict(
         engine="E1", design_ref="5 / C13",
@@ -431,7 +431,7 @@ PROPS["C13"] = dict(
 
 PROPS["C01"] = dict(
     level="model_checking",
-    budget_s=dict(quick=180, thorough=1800),
+    budget_s=dict(quick=300, thorough=1800),
     parts=[dict(name="arrays", bin="C01", flavour="plain")],
     manifest=dict(
         engine="E1", design_ref="5 / C01",
@@ -459,7 +459,7 @@ _GRID_NOTE = ("Reference region = linear scan over the coordinates the library r
 
 PROPS["C05"] = dict(
     level="exploration",
-    budget_s=dict(quick=150, thorough=1500),
+    budget_s=dict(quick=300, thorough=1500),
     parts=[dict(name="tags", bin="C05", flavour="plain")],
     manifest=dict(
         engine="E2", design_ref="5 / C05",
